@@ -1947,9 +1947,11 @@ class _BulkORMUpdate(_BulkUDCompileState, UpdateDMLState):
             # this only gets hit if the session had pending changes
             # and autoflush were set to False.  Same for values that
             # depend on attributes which are not loaded.
-            to_expire = attrib.intersection(dict_).difference(to_evaluate)
-            if to_expire:
-                state._expire_attributes(dict_, to_expire)
+            modified_to_expire = attrib.intersection(dict_).difference(
+                to_evaluate
+            )
+            if modified_to_expire:
+                state._expire_attributes(dict_, modified_to_expire)
 
             states.add(state)
         session._register_altered(states)
